@@ -135,7 +135,9 @@ def run(R):
                         % short(mods[0].call.name), [mods[0].call.loc()])
             continue
         # every path Some-edge -> header passes through the execute call
-        reach = f.reachable_from(lp.some, avoid={e.bb})
+        reach = PR.flag_reach(f, lp.some, avoid={e.bb})
+        if reach is None:
+            reach = f.reachable_from(lp.some, avoid={e.bb})
         if lp.header in reach:
             R.violation("C12.once", short_name + "|skipped", "there is a path from reading a line back to the loop header of %s that does "
                                                              "not execute the line" % f.path, [e.loc()])
